@@ -4,7 +4,7 @@ import json
 LB_NOTE = "mcache/dirtmake/sync.Pool replaced by a ghost ledger over fresh never-reused blocks with arbitrary content (capacity = next power of two); bytes.IndexByte unrolled; shapes (pointer structure) enumerated, every size/offset/byte symbolic; sizes <= 8 MB in the general harness"
 CLAIMED = {
  "C01": dict(cat="model_checking", tech="bounded symbolic execution of go/ssa + SMT (z3, LIA pre-check), differential against a FIFO rope reference",
-   text="Every LinkBuffer method is executed symbolically from the real SSA from 19 reachable buffer shapes (sizes symbolic per size class) followed by one (quick) or two (thorough) arbitrary operations of 24 kinds with arbitrary arguments and a final drain; results, Len, MallocLen and the drained stream are compared with a FIFO reference for all sizes at once; counterexamples are replayed natively.",
+   text="Every LinkBuffer method is executed symbolically from the real SSA from 19 reachable buffer shapes (sizes symbolic per size class) followed by one (quick) or two (thorough) arbitrary operations of 24 kinds with arbitrary arguments and a final drain; plus writer histories around MallocAck on 8 shapes (3 reservations spanning several nodes, MallocAck of an arbitrary part, 3 more reservations, drain); results, Len, MallocLen and the drained stream are compared with a FIFO reference for all sizes at once; counterexamples are replayed natively.",
    note=LB_NOTE, ref="5.1"),
  "C02": dict(cat="model_checking", tech="bounded symbolic execution of go/ssa + SMT; lease ghost state, write-log range disjointness",
    text="Same runs as C01 with lease ghost state: every zero-copy result and every Slice reader is re-examined after every later operation (content unchanged by structural range-disjointness over the block write-logs, block not handed back to the pool).",
